@@ -7,7 +7,7 @@ from typing import Dict, List, Optional
 from .loader import AnalysisError, Program
 from .ratnf import Rat
 from .report import Ctx
-from .termalg import NONE, DictV, Key, ListV, Raised, Rec, TermAlg, TupV, Undecidable, coefs, num, sym
+from .termalg import NONE, DictV, Key, LinV, ListV, Raised, Rec, TermAlg, TupV, Undecidable, coefs, num, sym
 
 PT = "PolyhedralTerm"
 
@@ -163,6 +163,35 @@ def rule_term_kernels(ctx: Ctx, which: Optional[List[str]] = None, rule: str = "
             "isolate/substitute across two rows: T.substitute(x, C.isolate(x)) = T - (a_x/b_x) C",
             k_isolate_combination,
         )
+
+    if on("symbolic"):
+        def k_sym_roundtrip():
+            ta = TermAlg(prog)
+            t = ta.term([x, y], "a")
+            fi_s = prog.func(PT + ".to_symbolic")
+            fi_t = prog.func(PT + ".to_term")
+            e = ta.call(fi_s, [t], {})
+            if not isinstance(e, LinV):
+                return "to_symbolic does not build a linear expression"
+            # documented reading: the expression of  sum a v <= c  is  sum a v - c
+            if not (_eq(e.coefs.get(x, num(0)), sym("a_x")) and _eq(e.coefs.get(y, num(0)), sym("a_y")) and _eq(e.const, -sym("a_c"))):
+                return "to_symbolic(sum a v <= c) is not  sum a v - c"
+            r = ta.call(fi_t, [e], {})
+            return _cmp_term(r, {"x": sym("a_x"), "y": sym("a_y")}, sym("a_c"))
+
+        _run(ctx, rule, PT + ".to_term", "to_symbolic / to_term are inverse (term <-> 'sum a v - c')", k_sym_roundtrip)
+
+        def k_solution_operand():
+            # a solution  x = p*y + q  turned into a term by to_term must substitute x correctly
+            ta = TermAlg(prog)
+            fi_t = prog.func(PT + ".to_term")
+            e = LinV({y: sym("p")}, sym("q"))
+            operand = ta.call(fi_t, [e], {})
+            t = ta.term([x, z], "a")
+            r = ta.method(t, "substitute_variable", [x, operand])
+            return _cmp_term(r, {"y": sym("a_x") * sym("p"), "z": sym("a_z")}, sym("a_c") - sym("a_x") * sym("q"))
+
+        _run(ctx, rule, PT + ".to_term", "to_term(E) as substitution operand means x = E (solutions of the elimination system)", k_solution_operand)
 
     if on("rename"):
         def k_rename():
